@@ -1,12 +1,14 @@
 //! vh - conformance harness binding the TLA+ specifications under /verif/specs to the real library.
 #![allow(dead_code)]
 mod util;
+mod c04;
 mod c14;
 mod c22;
 mod c27;
 mod c28;
 mod c29;
 mod proj;
+mod synth;
 
 fn main() {
     let argv: Vec<String> = std::env::args().skip(1).collect();
@@ -15,6 +17,7 @@ fn main() {
     }
     let args = util::Args::parse(&argv[1..]);
     match argv[0].as_str() {
+        "c04" => c04::main(&args),
         "c14" => c14::main(&args),
         "c22" => c22::main(&args),
         "c27" => c27::main(&args),
